@@ -62,6 +62,16 @@ class NewDataset(ModelObject):
         return f
 
 
+def same_conf(x, y):
+    """every entry of the configuration tree y is still in x with the same value (entries the code ADDS, e.g. defaults
+    filled in, are not an issue for the next file; model leaves compare by kind)"""
+    if isinstance(x, dict) or isinstance(y, dict):
+        return isinstance(x, dict) and isinstance(y, dict) and all(k in x and same_conf(x[k], y[k]) for k in y)
+    if isinstance(x, ModelObject) or isinstance(y, ModelObject):
+        return type(x) is type(y) and getattr(x, "has_marker", None) == getattr(y, "has_marker", None)
+    return type(x) is type(y) and x == y
+
+
 class RefTimeString(ModelObject):
     """an attribute value containing the marker 'reference_time' (e.g. 'seconds since reference_time')"""
 
@@ -104,10 +114,7 @@ class CreateNetcdfImpl(Spec):
 
         self.externals = {"netCDF4.Dataset": dataset}
 
-    def inputs(self, cx):
-        cx.ghost["structured_fstrings"] = True
-        timer = make_timer(cx)
-        rc, numrec, num_records = z3.Ints("record_count numrec num_records")
+    def _config(self):
         ivars = dict(
             X=dict(encoding=dict(datatype="f4"), attributes=dict(long_name="x position")),
             xi=dict(encoding=dict(datatype="i4"), attributes=dict(long_name="extra", units="1")),
@@ -120,6 +127,13 @@ class CreateNetcdfImpl(Spec):
                 release_time=dict(encoding=dict(datatype="f8"), attributes=dict(long_name=RefTimeString(False), units=RefTimeString(True))),
                 farmid=dict(encoding=dict(datatype="i4"), attributes=dict(long_name=RefTimeString(False))),
             )
+        return ivars, pv
+
+    def inputs(self, cx):
+        cx.ghost["structured_fstrings"] = True
+        timer = make_timer(cx)
+        rc, numrec, num_records = z3.Ints("record_count numrec num_records")
+        ivars, pv = self._config()
         out = Obj(
             "ladim.out_netcdf.Output",
             filename="<file name>",
@@ -140,12 +154,17 @@ class CreateNetcdfImpl(Spec):
         return NotImplemented
 
     def ensures(self, cx, a, result):
-        t = a.self.attrs
+        t = dict(a.self.attrs)
         out = []
         ok = isinstance(result, NewDataset)
         out.append(("C06/C07: returns the newly created dataset", ok))
         if not ok:
             return out
+        # frame: create_netcdf runs once per output file and must leave the variable configuration as it found it
+        ivars0, pv0 = self._config()
+        out.append(("C07 frame: the configuration of the instance variables keeps every entry it had (the next file is created from it)", same_conf(t["instance_variables"], ivars0)))
+        out.append(("C07 frame: the configuration of the particle variables keeps every entry it had", same_conf(t["particle_variables"], pv0)))
+        t["instance_variables"], t["particle_variables"] = ivars0, pv0  # what the file must contain is stated on the configuration as given
         out.append(("C07: the file is created under the current file name with the configured netCDF arguments", result.filename == "<file name>" and result.kwargs == dict(mode="w", format="NETCDF4")))
         out.append(("C07: records this file will hold == min(numrec, records still to write)", V.s_cmp("==", t.get("local_num_records", -1), z3.If(t["numrec"] <= t["num_records"] - t["record_count"], t["numrec"], t["num_records"] - t["record_count"]))))
         dims = {"time": None, "particle": None}
